@@ -21,6 +21,8 @@ import traceback
 
 _now = time.time     # bound before any virtual clock is installed
 HERE = os.path.dirname(os.path.dirname(os.path.abspath(__file__)))
+# scratch output location for mutant runs (never used by registered commands)
+OUT = os.environ.get('VERIF_OUT_DIR') or HERE
 LEVEL = 'model_checking'
 
 
@@ -217,7 +219,7 @@ def main():
         return status
 
     import glob
-    for old in glob.glob(os.path.join(HERE, 'replays', '%s-*.json' % prop)):
+    for old in glob.glob(os.path.join(OUT, 'replays', '%s-*.json' % prop)):
         os.unlink(old)
     mod = _module(prop)
     seeds = hash_seeds(args.tier, args.seed)
@@ -240,7 +242,7 @@ def main():
 
     cov, violations, assumptions = merge(results)
     cov['hash_seeds'] = seeds
-    os.makedirs(os.path.join(HERE, 'replays'), exist_ok=True)
+    os.makedirs(os.path.join(OUT, 'replays'), exist_ok=True)
     status = 0
     known_hit = {}
     unknown = 0
@@ -260,7 +262,7 @@ def main():
         }
         blob = json.dumps(payload, sort_keys=True, default=_jsonable)
         name = '%s-%s.json' % (prop, hashlib.sha1(blob.encode()).hexdigest()[:10])
-        path = os.path.join(HERE, 'replays', name)
+        path = os.path.join(OUT, 'replays', name)
         with open(path, 'w') as f:
             f.write(json.dumps(payload, indent=1, default=_jsonable))
         print('VIOLATION property=%s replay=%s clause=%s site=%s count=%s'
@@ -280,8 +282,8 @@ def main():
         'level': LEVEL, 'coverage': cov, 'assumptions': assumptions,
         'wall_s': round(wall, 2), 'violations': unknown,
     }
-    os.makedirs(os.path.join(HERE, 'evidence'), exist_ok=True)
-    with open(os.path.join(HERE, 'evidence', '%s.json' % prop), 'w') as f:
+    os.makedirs(os.path.join(OUT, 'evidence'), exist_ok=True)
+    with open(os.path.join(OUT, 'evidence', '%s.json' % prop), 'w') as f:
         json.dump(evidence, f, indent=1, default=_jsonable, sort_keys=True)
         f.write('\n')
     summ = {k: cov.get(k) for k in ('states', 'transitions', 'evaluations',
